@@ -73,3 +73,26 @@ def run(ctx, rep):
                     adder(rep, k)("R29b", "kept iff timestamp + lifespan > now", False, "predicate is %s" % kf.show(e)[:100])
     addr("R29b", "kept iff timestamp + lifespan > now", okp, "no such retain predicate")
     rep.floor("R29b", len(ret), 1, "retain calls in remove_stale_writer_samples")
+    # R29c: the purge pass reaches every writer: the loops around the retain have no exit other than their iterator running out
+    # (a `return` / `break` for a writer with an infinite lifespan would skip all writers after it)
+    m = rf.mir
+    loops = m.natural_loops()
+    rets = set(m.return_blocks())
+    nl = 0
+    for rb in ret:
+        for h, body in loops.items():
+            if rb not in body:
+                continue
+            nl += 1
+            # the iterator's own exit: the None arm of the switch on the `next()` result inside this loop
+            own = set()
+            for sb, ce in rf.ces.items():
+                if sb in body and ce.is_discr() and E.is_call(E.strip_casts(ce.expr[1]), "Iterator::next"):
+                    tgt = ce.target_for(0)
+                    if tgt is not None and tgt not in body:
+                        own.add((sb, tgt))
+            exits = [(x, t) for x in sorted(body) for t in m.succ(x) if t not in body and (x, t) not in own and (m.reachable(t) & rets)]
+            addr("R29c", "the purge loop over writers / publishers has no early exit", not exits,
+                 "%d edge(s) leave the loop before every writer was visited (lines %s): writers after the first one with an infinite lifespan keep their expired samples"
+                 % (len(exits), sorted({m.blocks[x].term.line for x, t in exits})), m.blocks[h].term.line)
+    rep.floor("R29c", nl, 1, "loops around the lifespan purge")
